@@ -198,6 +198,26 @@ pub fn run(ctx: &mut Ctx) {
         }
         let b = h.base64();
         if DataHash::from_base64(&b).ok() != Some(h) { ctx.fail("C06", "base64-roundtrip", format!("from_base64(base64(h)) != h for {b}"), "null".into()); }
+        // base64 text form against the model (encode; decode of valid, truncated, padded, non-canonical, foreign-alphabet texts)
+        ctx.op(&format!("hash.b64 {}", h.hex()), &b);
+        let mut bt = b.clone();
+        let bkind = (i / 8) % 10;
+        match bkind {
+            0 | 1 => {}
+            2 => { bt.pop(); }
+            3 => { bt.push('='); }
+            4 => { bt.push('A'); }
+            5 => { // the last character carries 4 payload bits and 2 bits that must be zero: set one of them
+                let last = bt.pop().unwrap(); let alphabet = "ABCDEFGHIJKLMNOPQRSTUVWXYZabcdefghijklmnopqrstuvwxyz0123456789-_";
+                let v = alphabet.find(last).unwrap(); bt.push(alphabet.as_bytes()[v | (1 + rng.below(3) as usize)] as char); }
+            6 => { let p = rng.below(43) as usize; bt.replace_range(p..p + 1, "+"); }      // standard alphabet, not url-safe
+            7 => { let p = rng.below(43) as usize; bt.replace_range(p..p + 1, "/"); }
+            8 => { let p = rng.below(43) as usize; bt.replace_range(p..p + 1, "="); }
+            _ => { let p = rng.below(43) as usize; let c = ["-", "_", "A", "z", "9"][rng.below(5) as usize]; bt.replace_range(p..p + 1, c); }   // another valid text
+        }
+        let bans = match DataHash::from_base64(&bt) { Ok(x) => format!("ok {}", x.hex()), Err(_) => "err".into() };
+        if bkind <= 1 && bans != format!("ok {}", h.hex()) { ctx.fail("C06", "base64-roundtrip", format!("from_base64({bt}) = {bans}, expected {}", h.hex()), "null".into()); }
+        if !bt.is_empty() { ctx.op(&format!("hash.fromb64 {bt}"), &bans); ctx.stat(&format!("b64_kind_{bkind}_{}", if bans == "err" { "err" } else { "ok" })); }
         if t.contains(' ') { continue; }
         ctx.op(&format!("hex.parse {t}"), &ans);
         ctx.stat(&format!("hex_kind_{kind}"));
